@@ -229,8 +229,13 @@ func (c *Ctx) ruleMainExit() {
 	okMain := false
 	allInstrs(mainFn, func(b *ssa.BasicBlock, ins ssa.Instruction) {
 		if call, ok := ins.(*ssa.Call); ok && strings.HasSuffix(P.calleeName(call.Common()), "multichecker.Main") {
-			d := P.Desc(call.Call.Args[0])
-			okMain = strings.Contains(d, "call(analyzer.AllAnalyzers; )")
+			roots := P.ResolveOpaque(call.Call.Args[0])
+			okMain = len(roots) > 0
+			for _, r := range roots {
+				if rc, isCall := r.(*ssa.Call); !isCall || P.calleeName(rc.Common()) != "analyzer.AllAnalyzers" {
+					okMain = false
+				}
+			}
 		}
 	})
 	c.check(okMain, "EXIT/MAIN", "main", P.Pos(mainFn.Pos()), "multichecker.Main(analyzer.AllAnalyzers()...)", "main does not hand analyzer.AllAnalyzers() to multichecker.Main (exit status convention / analyzer set)")
